@@ -95,7 +95,10 @@ def _run_one(i):
             # Such a store changes what the NEXT call on the same data sees, so the per-call postcondition just proved
             # does not carry over to histories.
             names = sorted(set(map(str, sx.ARG_DATA_WRITES)))
-            v = be.Verdict(be.REFUTED, "FRAME", witness={}, detail=f"the code under contract stores into caller-owned data {names} (arguments, or arrays held by the object, that existed before the call): the caller's data / the stored state is changed by a call that should only read it", seconds=time.time() - t0)
+            only_masked = all(n_.endswith("[masked store]") for n_ in names)
+            # a store through a boolean mask writes only where the mask is true; whether it ever is depends on invariants this
+            # obligation may not have: undecided (the bounded search of the replay decides), not refuted
+            v = be.Verdict(be.UNKNOWN if only_masked else be.REFUTED, "FRAME", witness=(None if only_masked else {}), detail=("a masked store into caller-owned data " if only_masked else "the code under contract stores into caller-owned data ") + f"{names} (arguments, or arrays held by the object, that existed before the call): the caller's data / the stored state is changed by a call that should only read it" + (" - if the mask is ever non-empty" if only_masked else ""), seconds=time.time() - t0)
         if lm.LIB_PRE_UNMET and v.status == be.PROVED and ob.expect == be.PROVED:
             # the code under contract calls a library function whose precondition the code does not establish: the
             # facts assumed about that call (and hence this proof) are void
